@@ -86,8 +86,16 @@ template<class A> static void equals_event(const typename A::Uri&a,const typenam
 
 
 // reference creation (C10): real uriRemoveBaseUri, then the real uriAddBaseUri of the result against the base
-template<class A> static void removebase_event(const Text&st,const Text&bt,int mode,int ep){
-  auto s=parse_holder<A>(st), b=parse_holder<A>(bt); if(!s->ok||!b->ok) return;
+template<class A> static void removebase_event_h(std::shared_ptr<Holder<A>> s,std::shared_ptr<Holder<A>> b,const Text&st,const Text&bt,int mode,int ep);
+template<class A> static void removebase_event(const Text&st,const Text&bt,int mode,int ep){ removebase_event_h<A>(parse_holder<A>(st),parse_holder<A>(bt),st,bt,mode,ep); }
+// both operands parsed as explicit ranges of ONE buffer, one text a leading part of the other: their components start at the same addresses and
+// differ in length only (a comparison of ranges must compare lengths, not just where they start)
+template<class A> static void removebase_shared_event(const Text&whole,size_t cut,bool swap,int mode,int ep){
+  auto l=parse_holder<A>(whole); auto p=std::make_shared<Holder<A>>(); p->src=Text(whole.begin(),whole.begin()+cut); p->keep.push_back(l); const typename A::Ch*e=nullptr;
+  p->ok= A::ParseSingleUriEx(&p->uri,l->text.data(),l->text.data()+cut,&e)==URI_SUCCESS;
+  if(swap) removebase_event_h<A>(p,l,p->src,whole,mode,ep); else removebase_event_h<A>(l,p,whole,p->src,mode,ep); }
+template<class A> static void removebase_event_h(std::shared_ptr<Holder<A>> s,std::shared_ptr<Holder<A>> b,const Text&st,const Text&bt,int mode,int ep){
+  if(!s->ok||!b->ok) return;
   g.set_case(J().str("driver","algebra/removebase").raw("s",jtext(st)).raw("b",jtext(bt)).num("mode",mode).num("w",A::W).done());
   std::string ss=snapshot<A>(s->uri), sb=snapshot<A>(b->uri); RecMM mm; typename A::Uri d; memset(&d,0xA5,sizeof d); int rc;
   if(ep==1) rc=A::RemoveBaseUriMm(&d,&s->uri,&b->uri,mode?URI_TRUE:URI_FALSE,&mm.mm); else rc=A::RemoveBaseUri(&d,&s->uri,&b->uri,mode?URI_TRUE:URI_FALSE);
@@ -153,7 +161,7 @@ VH_DRIVER(algebra){
       for(const char*ctx:{"","/","s:","s:/","//h/"}) for(auto&sg:ps){ if(sg.size()==1&&sg[0]==1) continue; Text t=T(ctx)+sg; for(unsigned m:{63u,8u}) for(int owned=0;owned<2;++owned){ ++q;
         AW(true,q%2,[&]{ normalize_event<ApiA>(t,m,owned,(int)(q%3)); },[&]{ normalize_event<ApiW>(t,m,owned,(int)(q%3)); }); } }
       const char* esc[]={"%e2","%E2","%aB","%Ba","%fF","%2e","%2E","%7e","%4a","%4A","%c3%a9"};
-      for(auto e:esc) for(const char*form:{"s://u@h/p?q#f","s://U%s@h/","s://h%s/","s://h/%s","s://h/a%sb/c","s://h/?%s","s://h/#%s","%s","s:%s","//%s@%s/%s?%s#%s"}){ char buf[200]; snprintf(buf,sizeof buf,form,e,e,e,e,e);
+      for(auto e:esc) for(const char*form:{"s://u@h/p?q#f","s://U%s@h/","s://h%s/","s://h/%s","s://h/a%sb/c","s://h/?%s","s://h/#%s","%s","s:%s","//%s@%s/%s?%s#%s","s://a%sB/","//%sX%sy","//%sX","//u@x%sY:1","s://H%s/","//[v1.a]%s"}){ char buf[200]; snprintf(buf,sizeof buf,form,e,e,e,e,e);
         for(unsigned m:{63u,2u,4u,8u,16u,32u}) for(int owned=0;owned<2;++owned){ ++q; AW(true,q%2,[&]{ normalize_event<ApiA>(T(buf),m,owned,(int)(q%3)); },[&]{ normalize_event<ApiW>(T(buf),m,owned,(int)(q%3)); }); } } }
     // (3) case folding touches letters only: every character a host, an IPvFuture literal, a scheme or user info may contain, between two
     // upper-case letters, borrowed and owned, normalized twice (the second run works on the library's own copy)
@@ -190,6 +198,9 @@ VH_DRIVER(algebra){
       const char* pths[]={"/a/b","/a/c"}; long q=0;
       for(auto a1:auths) for(auto a2:auths) for(int pi=0;pi<2;++pi) for(int md=0;md<2;++md){ ++q; Text s=T("s:")+T(a1)+T(pths[pi]), b=T("s:")+T(a2)+T(pths[1-pi]);
         AW(true,q%2,[&]{ removebase_event<ApiA>(s,b,md,(int)(q%3==0)); },[&]{ removebase_event<ApiW>(s,b,md,(int)(q%3==0)); }); } }
+    // operands that share one buffer (every cut of a few URIs that leaves a valid absolute URI), both directions, both modes
+    { long q=0; for(const char*w:{"s://host/dir/intro.html?query#frag","s://user@hostess:8080/a/bc/def","s://h/a/b/","s:/x/yz","s://1.2.3.44/p","s://[::1]/a"}){ Text t=T(w);
+        for(size_t cut=3;cut<t.size();++cut) for(int sw=0;sw<2;++sw) for(int md=0;md<2;++md){ ++q; AW(true,q%2,[&]{ removebase_shared_event<ApiA>(t,cut,sw,md,(int)(q%3==0)); },[&]{ removebase_shared_event<ApiW>(t,cut,sw,md,(int)(q%3==0)); }); } } }
     // the first segment written into the reference contains ':' - whatever stands before the colon (the "./" guard of reference creation)
     { long q=0; const char* first[]={"a:b","a1:b","a+b:c","a-b:c","a.b:c","A+1-.:x","1a:b","+a:b","-:x",".a:b","a_b:c","a~b:c","a!b:c","a@b:c","a%41:b","%41:b",":b","a:","a::b","a:b:c","svn+ssh:repo","a$b:c","a&b:c","a'b:c","a(b):c","a*b:c","a,b:c","a;b:c","a=b:c"};
       for(auto f:first) for(const char*ctx:{"s://h/dir/","s:/dir/","s://h/","s:/"}) for(const char*rest:{"","/r"}) for(const char*bt:{"x","x/y",""}) for(int md=0;md<2;++md){ ++q; Text s=T(ctx)+T(f)+T(rest), b=T(ctx)+T(bt);
